@@ -15,10 +15,13 @@ import RrProofs.Lemmas.C08Sys
                                     (`ServedWithoutContactIsFreshStatement_false`: finding C08-a on a disk)
     5. `fresh_not_contacted`(`_partial`)  not due (fresh outside class C08-b) ⇒ no contact, no write
                                     (`FreshNotContactedStatement_false`: finding C08-b on a disk)
-       `stale_served_only_within_allowances`   a `…:stale` answer only after a revalidation that failed
-                                    inside stale-if-error, or that the origin confirmed but the request
-                                    could not record (disk writes disabled: key held by the request itself),
-                                    inside stale-while-revalidate
+       `stepOnce_reenter_skip`, `stepOnce_reenter_skip_true`, `stepOnce_reenterLocked`   where the
+                                    re-entries of `cachingFunc` come from (all with `skipRevalidate = true`)
+       `stale_served_only_within_allowances`   a `…:stale` answer only after a revalidation IN THIS REQUEST
+                                    that failed inside stale-if-error, or that the origin confirmed (304):
+                                    recorded, or unrecorded (disk writes disabled: key held by the request)
+                                    (`StaleOnlyAfterFailedRevalidationStatement_false`: the stale-if-error
+                                    clause alone is false)
     6. `run_all`, `history_*`       the lift to histories
 -/
 namespace Props.C08Sys
@@ -583,29 +586,76 @@ structure FailedRevalidation (cfg : Config) (origin : Bytes → Option Origin) (
   allowance : (getCacheControlDirectives s.meta.respHeader).canStaleIfError age = true
   within : Spec.C08.withinStaleIfError (Props.C08.st (entryOf s)) now = true
 
-/-- **the only re-entry with `skipRevalidate = true`**: it follows a failed revalidation inside the
-    stale-if-error allowance; the activation was itself NOT asked for the stale copy, it logged exactly
-    the one contact, and it left the disk as `storage.Get` left it (the entry is untouched) -/
+/-- a revalidation of the stored entry `s` (found under `k`, due) that the origin CONFIRMED with a
+    cacheable 304 to the validator the cache sent, and that was RECORDED: the request's disk writes are
+    enabled and `SetRevalidatedAndClose` re-published the entry (`Revalidated := now`, headers merged with
+    the 304's), leaving the disk `d1` -/
+structure ConfirmedRevalidation (cfg : Config) (origin : Bytes → Option Origin) (now : Int) (req : Request)
+    (d : Disk) (client : Header) (cs : List Contact) (k : Key) (s : Stored) (age : Int) (resp : Resp)
+    (d1 : Disk) : Prop where
+  found : ∃ d', storageGet d (keysOf cfg req client) = (d', .found k s)
+  due : Freshness.shouldRevalidate (entryOf s) now cfg.force = true
+  age_eq : age = (Props.C08.st (entryOf s)).age now
+  asked : ask cfg origin req cs (surgeryOf (Range.getRange client) client (some (k, s, age))).req = some resp
+  status : resp.status = 304
+  cacheable : (getCacheControlDirectives resp.header).doNotCache = false
+  validator : (surgeryOf (Range.getRange client) client (some (k, s, age))).used ≠ []
+  writes_enabled : ¬ (client.get b!"authorization").length > 0
+  recorded : republish (storageGet d (keysOf cfg req client)).1
+      (writerOf (keysOf cfg req client) client (some (k, s, age))) now
+      (some (Conditional.dropZeroContentLength resp.header)) = (d1, true)
+
+/-- **the re-entries with `skipRevalidate = true`** have two origins: the row `w:stale` — a revalidation
+    that failed inside the stale-if-error allowance, disk as `storage.Get` left it (the entry is
+    untouched) — or (since the fix: commit for the two-values loop) the row `w:304` — a revalidation the origin confirmed
+    and the request recorded, disk `d'` = the re-published one.  Either way the activation was itself NOT
+    asked for the stale copy and logged exactly the one contact. -/
 theorem stepOnce_reenter_skip {cfg : Config} {origin : Bytes → Option Origin} {now : Int} {req : Request}
     {d : Disk} {client ai : Header} {skip : Bool} {cs : List Contact}
     {d' : Disk} {client' ai' : Header} {cs' : List Contact} {tag : String}
     (h : stepOnce cfg origin now req d client ai skip cs = .reenter d' client' ai' true cs' tag) :
-    IsGetHead req ∧ skip = false ∧ tag = "w:stale>"
-    ∧ d' = (storageGet d (keysOf cfg req client)).1
-    ∧ ∃ k s age resp, FailedRevalidation cfg origin now req d client cs k s age resp
-        ∧ cs' = cs ++ [contactOf (surgeryOf (Range.getRange client) client (some (k, s, age))).req] := by
+    IsGetHead req ∧ skip = false
+    ∧ ∃ k s age resp,
+        cs' = cs ++ [contactOf (surgeryOf (Range.getRange client) client (some (k, s, age))).req]
+        ∧ ( (tag = "w:stale>" ∧ d' = (storageGet d (keysOf cfg req client)).1
+              ∧ FailedRevalidation cfg origin now req d client cs k s age resp)
+          ∨ (tag = "w:304>" ∧ ConfirmedRevalidation cfg origin now req d client cs k s age resp d') ) := by
   obtain ⟨hm, reval, resp, hl, hask, haa⟩ := stepOnce_reenter_inv h
-  obtain ⟨hcs, hh⟩ := afterAnswer_reenter_inv haa
-  rcases hh with ⟨_, htag, hd, _, hsie⟩ | ⟨hf, _⟩
+  obtain ⟨hcs, _, hh⟩ := afterAnswer_reenter_inv haa
+  rcases hh with ⟨htag, hd, _, hsie⟩ | ⟨htag, _, hst, hu, hdc, hw, hrep⟩
   · obtain ⟨k, s, age, hr, hst, hal⟩ := staleIfErrorOf_inv hsie
     subst hr
     obtain ⟨d1, c, hs, hdec⟩ := lookup_writer_inv hl
     obtain ⟨hskip, hdue, hage⟩ := revalidate_inv hdec
     rw [lookup_fst] at hd
-    refine ⟨hm, hskip, htag, hd, k, s, age, resp, ?_, hcs⟩
+    refine ⟨hm, hskip, k, s, age, resp, hcs, Or.inl ⟨htag, hd, ?_⟩⟩
     exact { found := ⟨d1, hs⟩, due := hdue, age_eq := hage, asked := hask, status := hst, allowance := hal,
             within := Props.C08.within_of_canStaleIfError (entryOf s) now (hage ▸ hal) }
-  · cases hf
+  · obtain ⟨k, s, age, hr⟩ := surgeryOf_used_pos hu
+    subst hr
+    obtain ⟨d1, c, hs, hdec⟩ := lookup_writer_inv hl
+    obtain ⟨hskip, hdue, hage⟩ := revalidate_inv hdec
+    rw [lookup_fst] at hrep
+    have hauth : ¬ (client.get b!"authorization").length > 0 := by
+      intro hc
+      have : (writerOf (keysOf cfg req client) client (some (k, s, age))).diskWritesDisabled = true := by
+        unfold writerOf; exact decide_eq_true hc
+      exact Bool.noConfusion (hw.symm.trans this)
+    have hval : (surgeryOf (Range.getRange client) client (some (k, s, age))).used ≠ [] := by
+      intro he; rw [he] at hu; exact absurd hu (by decide)
+    refine ⟨hm, hskip, k, s, age, resp, hcs, Or.inr ⟨htag, ?_⟩⟩
+    exact { found := ⟨d1, hs⟩, due := hdue, age_eq := hage, asked := hask, status := hst, cacheable := hdc,
+            validator := hval, writes_enabled := hauth, recorded := hrep }
+
+/-- **there is no re-entry with `skipRevalidate = false`** (since the fix: commit for the two-values loop): every re-entry
+    of `cachingFunc` asks for the entry as it is -/
+theorem stepOnce_reenter_skip_true {cfg : Config} {origin : Bytes → Option Origin} {now : Int} {req : Request}
+    {d : Disk} {client ai : Header} {skip : Bool} {cs : List Contact}
+    {d' : Disk} {client' ai' : Header} {skip' : Bool} {cs' : List Contact} {tag : String}
+    (h : stepOnce cfg origin now req d client ai skip cs = .reenter d' client' ai' skip' cs' tag) :
+    skip' = true := by
+  obtain ⟨_, _, _, _, _, haa⟩ := stepOnce_reenter_inv h
+  exact (afterAnswer_reenter_inv haa).2.1
 
 /-- a revalidation of the stored entry `s` (found under `k`, due) that the origin CONFIRMED with a 304
     while the request's disk writes are disabled (it carries `Authorization`): `SetRevalidatedAndClose`
@@ -618,36 +668,8 @@ structure ConfirmedUnrecorded (cfg : Config) (origin : Bytes → Option Origin) 
   age_eq : age = (Props.C08.st (entryOf s)).age now
   asked : ask cfg origin req cs (surgeryOf (Range.getRange client) client (some (k, s, age))).req = some resp
   status : resp.status = 304
+  cacheable : (getCacheControlDirectives resp.header).doNotCache = false
   authorization : (client.get b!"authorization").length > 0
-
-/-- **the re-entries with `skipRevalidate = false`** are those after a 304 of the origin to a validator
-    of the stored entry, recorded on the disk (`w:304>`; the request's disk writes are enabled) -/
-theorem stepOnce_reenter_noskip {cfg : Config} {origin : Bytes → Option Origin} {now : Int} {req : Request}
-    {d : Disk} {client ai : Header} {skip : Bool} {cs : List Contact}
-    {d' : Disk} {client' ai' : Header} {cs' : List Contact} {tag : String}
-    (h : stepOnce cfg origin now req d client ai skip cs = .reenter d' client' ai' false cs' tag) :
-    IsGetHead req ∧ skip = false ∧ tag = "w:304>" ∧ ¬ (client.get b!"authorization").length > 0
-    ∧ ∃ k s age resp,
-      (lookup cfg now (keysOf cfg req client) d client skip).2 = .writer (some (k, s, age))
-      ∧ Freshness.shouldRevalidate (entryOf s) now cfg.force = true
-      ∧ ask cfg origin req cs (surgeryOf (Range.getRange client) client (some (k, s, age))).req = some resp
-      ∧ resp.status = 304
-      ∧ cs' = cs ++ [contactOf (surgeryOf (Range.getRange client) client (some (k, s, age))).req] := by
-  obtain ⟨hm, reval, resp, hl, hask, haa⟩ := stepOnce_reenter_inv h
-  obtain ⟨hcs, hh⟩ := afterAnswer_reenter_inv haa
-  rcases hh with ⟨hf, _⟩ | ⟨_, htag, _, hst, hu, hw⟩
-  · cases hf
-  · obtain ⟨k, s, age, hr⟩ := surgeryOf_used_pos hu
-    subst hr
-    obtain ⟨d1, c, hs, hdec⟩ := lookup_writer_inv hl
-    obtain ⟨hskip, hdue, _⟩ := revalidate_inv hdec
-    have hauth : ¬ (client.get b!"authorization").length > 0 := by
-      intro hc
-      have : (writerOf (keysOf cfg req client) client (some (k, s, age))).diskWritesDisabled = true := by
-        unfold writerOf; exact decide_eq_true hc
-      rw [hw] at this
-      cases this
-    exact ⟨hm, hskip, htag, hauth, k, s, age, resp, hl, hdue, hask, hst, hcs⟩
 
 /-- **the self-locked re-entry** follows a revalidation the origin confirmed but the request could not
     record: the activation was not asked for the stale copy, logged exactly the one contact and left the
@@ -661,7 +683,7 @@ theorem stepOnce_reenterLocked {cfg : Config} {origin : Bytes → Option Origin}
     ∧ ∃ k s age resp, ConfirmedUnrecorded cfg origin now req d client cs k s age resp
         ∧ cs' = cs ++ [contactOf (surgeryOf (Range.getRange client) client (some (k, s, age))).req] := by
   obtain ⟨hm, reval, resp, hl, hask, haa⟩ := stepOnce_reenterLocked_inv h
-  obtain ⟨hcs, hd, htag, _, hst, hu, hw⟩ := afterAnswer_reenterLocked_inv haa
+  obtain ⟨hcs, hd, htag, _, hst, hu, hdc, hw⟩ := afterAnswer_reenterLocked_inv haa
   obtain ⟨k, s, age, hr⟩ := surgeryOf_used_pos hu
   subst hr
   obtain ⟨d1, c, hs, hdec⟩ := lookup_writer_inv hl
@@ -670,30 +692,37 @@ theorem stepOnce_reenterLocked {cfg : Config} {origin : Bytes → Option Origin}
   have hauth : (client.get b!"authorization").length > 0 := by
     unfold writerOf at hw; exact of_decide_eq_true hw
   exact ⟨hm, hskip, htag, hd, k, s, age, resp,
-    { found := ⟨d1, hs⟩, due := hdue, age_eq := hage, asked := hask, status := hst, authorization := hauth }, hcs⟩
+    { found := ⟨d1, hs⟩, due := hdue, age_eq := hage, asked := hask, status := hst, cacheable := hdc,
+      authorization := hauth }, hcs⟩
 
-/-- `cache.Get` on a key that is HELD (by the request itself), for the entry `s`: the entry is due for
-    revalidation and is handed out as the stale copy inside its stale-while-revalidate allowance -/
-structure StaleWhileRevalidate (cfg : Config) (now : Int) (req : Request) (d : Disk) (client : Header)
+/-- `cache.Get` asked for the entry as it is (`skipRevalidate = true`, key held by the request itself) hands out
+    the entry `s` it finds marked stale: the entry is due for revalidation (the stale-while-revalidate
+    window plays no part any more: with `skipRevalidate` the stale copy is handed out inside and outside it) -/
+structure DueEntryServed (cfg : Config) (now : Int) (req : Request) (d : Disk) (client : Header)
     (s : Stored) (age : Int) : Prop where
   found : ∃ d' k, storageGet d (keysOf cfg req client) = (d', .found k s)
-  decision : Freshness.get true (entryOf s) now cfg.force false (client.get b!"if-none-match")
+  decision : Freshness.get true (entryOf s) now cfg.force true (client.get b!"if-none-match")
     (client.get b!"if-modified-since") cfg.sfx = .ok (.foundStale age)
   due : Freshness.shouldRevalidate (entryOf s) now cfg.force = true
-  within : Spec.C08.withinStaleWhileRevalidate (Props.C08.st (entryOf s)) now = true
+  age_eq : age = (Props.C08.st (entryOf s)).age now
 
-/-- a `…:stale` answer of the self-locked re-entry is the stale-while-revalidate allowance -/
+/-- a `…:stale` answer of the self-locked re-entry: the entry found there is due -/
 theorem lockedReentry_stale {cfg : Config} {origin : Bytes → Option Origin} {now : Int} {req : Request}
     {d : Disk} {client ai : Header} {cs : List Contact}
     (h : EndsStale (lockedReentry cfg origin now req d client ai cs).label) :
-    ∃ s age, StaleWhileRevalidate cfg now req d client s age := by
+    ∃ s age, DueEntryServed cfg now req d client s age := by
   obtain ⟨d', k, s, age, hs, hg⟩ := lockedReentry_stale_inv h
-  refine ⟨s, age, ⟨d', k, hs⟩, hg, ?_, (Props.C08.stale_only_within_swr _ _ _ _ _ _ _ _ hg).2⟩
   cases hsr : Freshness.shouldRevalidate (entryOf s) now cfg.force with
-  | true => rfl
+  | true =>
+    refine ⟨s, age, ⟨d', k, hs⟩, hg, hsr, ?_⟩
+    rw [Freshness.get_of_stale true true _ _ _ hsr, Props.C08.ageOf_fst_st] at hg
+    simp only [if_true] at hg
+    injection hg with hg
+    injection hg with hg
+    exact hg.symm
   | false =>
     exfalso
-    rw [Freshness.get_of_not_stale true false _ _ _ hsr] at hg
+    rw [Freshness.get_of_not_stale true true _ _ _ hsr] at hg
     cases hc : Freshness.clientCheck cfg.sfx (client.get b!"if-none-match") (client.get b!"if-modified-since")
         (entryOf s).header with
     | panic site => rw [hc] at hg; cases hg
@@ -734,34 +763,44 @@ def HadFailedRevalidation (cfg : Config) (origin : Bytes → Option Origin) (now
     ∧ FailedRevalidation cfg origin now req a.disk a.client a.contacts k s age resp
     ∧ (a.contacts ++ [contactOf (surgeryOf (Range.getRange a.client) a.client (some (k, s, age))).req]) <+: log
 
+/-- some activation of the request was a revalidation the origin confirmed (304) and the request recorded
+    on the disk (`d1`), and its contact is in the request's log `log` -/
+def HadConfirmedRevalidation (cfg : Config) (origin : Bytes → Option Origin) (now : Int) (req : Request)
+    (a₀ : Act) (log : List Contact) : Prop :=
+  ∃ (a : Act) (k : Key) (s : Stored) (age : Int) (resp : Resp) (d1 : Disk),
+    Activation cfg origin now req a₀ a
+    ∧ ConfirmedRevalidation cfg origin now req a.disk a.client a.contacts k s age resp d1
+    ∧ (a.contacts ++ [contactOf (surgeryOf (Range.getRange a.client) a.client (some (k, s, age))).req]) <+: log
+
 /-- some activation of the request was a revalidation the origin confirmed (304) but the request could not
     record (disk writes disabled), its contact is in the request's log `log`, and the re-entry — on the disk
-    as `storage.Get` left it, finding the key held by the request itself — was handed the stale copy inside
-    the stale-while-revalidate allowance of the entry it found -/
+    as `storage.Get` left it, the key held by the request itself, asked for the entry as it is — was handed
+    the entry it found, still due, marked stale -/
 def HadUnrecordedRevalidation (cfg : Config) (origin : Bytes → Option Origin) (now : Int) (req : Request)
     (a₀ : Act) (log : List Contact) : Prop :=
   ∃ (a : Act) (k : Key) (s : Stored) (age : Int) (resp : Resp) (client' : Header) (s' : Stored) (age' : Int),
     Activation cfg origin now req a₀ a
     ∧ ConfirmedUnrecorded cfg origin now req a.disk a.client a.contacts k s age resp
-    ∧ StaleWhileRevalidate cfg now req (storageGet a.disk (keysOf cfg req a.client)).1 client' s' age'
+    ∧ DueEntryServed cfg now req (storageGet a.disk (keysOf cfg req a.client)).1 client' s' age'
     ∧ (a.contacts ++ [contactOf (surgeryOf (Range.getRange a.client) a.client (some (k, s, age))).req]) <+: log
 
 /-- whatever the activation state: an answer labelled `…:stale` was either asked for
-    (`skipRevalidate = true` on entry), or follows a failed revalidation inside stale-if-error, or an
-    unrecorded one inside stale-while-revalidate -/
-theorem stale_answer_inv (cfg : Config) (origin : Bytes → Option Origin) (now : Int) (req : Request) :
-    ∀ (fuel : Nat) (d : Disk) (client ai : Header) (skip : Bool) (cs : List Contact),
-      EndsStale (cachingFunc cfg origin now req fuel d client ai skip cs).label →
-      skip = true
-      ∨ HadFailedRevalidation cfg origin now req ⟨d, client, ai, skip, cs⟩
-          (cachingFunc cfg origin now req fuel d client ai skip cs).contacts
-      ∨ HadUnrecordedRevalidation cfg origin now req ⟨d, client, ai, skip, cs⟩
-          (cachingFunc cfg origin now req fuel d client ai skip cs).contacts := by
-  intro fuel
-  induction fuel with
-  | zero => intro d client ai skip cs h; exact absurd h (by unfold cachingFunc; dsimp only; decide)
-  | succ n ih =>
-    intro d client ai skip cs h
+    (`skipRevalidate = true` on entry), or THIS activation was a revalidation: failed inside stale-if-error,
+    or confirmed and recorded, or confirmed and unrecorded (the witness activation is always the first one:
+    every re-entry runs with `skipRevalidate = true`) -/
+theorem stale_answer_inv (cfg : Config) (origin : Bytes → Option Origin) (now : Int) (req : Request)
+    (fuel : Nat) (d : Disk) (client ai : Header) (skip : Bool) (cs : List Contact)
+    (h : EndsStale (cachingFunc cfg origin now req fuel d client ai skip cs).label) :
+    skip = true
+    ∨ HadFailedRevalidation cfg origin now req ⟨d, client, ai, skip, cs⟩
+        (cachingFunc cfg origin now req fuel d client ai skip cs).contacts
+    ∨ HadConfirmedRevalidation cfg origin now req ⟨d, client, ai, skip, cs⟩
+        (cachingFunc cfg origin now req fuel d client ai skip cs).contacts
+    ∨ HadUnrecordedRevalidation cfg origin now req ⟨d, client, ai, skip, cs⟩
+        (cachingFunc cfg origin now req fuel d client ai skip cs).contacts := by
+  cases fuel with
+  | zero => exact absurd h (by unfold cachingFunc; dsimp only; decide)
+  | succ n =>
     unfold cachingFunc at h ⊢
     split at h
     · rename_i a heq
@@ -769,48 +808,49 @@ theorem stale_answer_inv (cfg : Config) (origin : Bytes → Option Origin) (now 
       exact Or.inl (lookup_stale_inv hl).1
     · rename_i d' c' ai' s' cs' tag heq
       dsimp only at h ⊢
-      cases s' with
-      | true =>
-        right; left
-        obtain ⟨_, _, _, _, k, s, age, resp, hfr, hcs⟩ := stepOnce_reenter_skip heq
-        refine ⟨⟨d, client, ai, skip, cs⟩, k, s, age, resp, Activation.first, hfr, ?_⟩
-        dsimp only
+      right
+      have hs' := stepOnce_reenter_skip_true heq
+      subst hs'
+      obtain ⟨_, _, k, s, age, resp, hcs, hh⟩ := stepOnce_reenter_skip heq
+      have hp : (cs ++ [contactOf (surgeryOf (Range.getRange client) client (some (k, s, age))).req]) <+:
+          (cachingFunc cfg origin now req n d' c' ai' true cs').contacts := by
         rw [← hcs]
         exact cachingFunc_contacts_prefix cfg origin now req n d' c' ai' true cs'
-      | false =>
-        obtain ⟨_, _, htag, _⟩ := stepOnce_reenter_noskip heq
-        have h' := endsStale_of_tag_append (Or.inl htag) h
-        rcases ih d' c' ai' false cs' h' with hf | ⟨a, k, s, age, resp, hact, hfr, hp⟩
-            | ⟨a, k, s, age, resp, c2, s2, age2, hact, hcu, hswr, hp⟩
-        · cases hf
-        · exact Or.inr (Or.inl ⟨a, k, s, age, resp, Activation.cons (a₀ := ⟨d, client, ai, skip, cs⟩) heq hact, hfr, hp⟩)
-        · exact Or.inr (Or.inr ⟨a, k, s, age, resp, c2, s2, age2,
-            Activation.cons (a₀ := ⟨d, client, ai, skip, cs⟩) heq hact, hcu, hswr, hp⟩)
+      rcases hh with ⟨_, _, hfr⟩ | ⟨_, hcr⟩
+      · exact Or.inl ⟨⟨d, client, ai, skip, cs⟩, k, s, age, resp, Activation.first, hfr, hp⟩
+      · exact Or.inr (Or.inl ⟨⟨d, client, ai, skip, cs⟩, k, s, age, resp, d', Activation.first, hcr, hp⟩)
     · rename_i d' c' ai' cs' tag heq
       dsimp only at h ⊢
-      right; right
+      right; right; right
       obtain ⟨_, _, htag, hd, k, s, age, resp, hcu, hcs⟩ := stepOnce_reenterLocked heq
       have h' := endsStale_of_tag_append (Or.inl htag) h
-      obtain ⟨s', age', hswr⟩ := lockedReentry_stale h'
-      refine ⟨⟨d, client, ai, skip, cs⟩, k, s, age, resp, c', s', age', Activation.first, hcu, hd ▸ hswr, ?_⟩
+      obtain ⟨s', age', hdue⟩ := lockedReentry_stale h'
+      refine ⟨⟨d, client, ai, skip, cs⟩, k, s, age, resp, c', s', age', Activation.first, hcu, hd ▸ hdue, ?_⟩
       dsimp only
       rw [← hcs]
       exact lockedReentry_contacts_prefix cfg origin now req d' c' ai' cs'
 
-/-- **stale_served_only_within_allowances** (C08, "except within the stale-if-error and
-    stale-while-revalidate allowances"): when the answer to a request, as `step` runs it, is made from the
-    copy marked stale (label `…:stale`), then in one of the activations of this request the origin WAS
-    contacted for a revalidation of a stored entry that was due, and
+/-- **stale_served_only_within_allowances** (C08, "past that it is revalidated with the origin first,
+    except within the stale-if-error and stale-while-revalidate allowances"): when the answer to a request,
+    as `step` runs it, is made from the copy marked stale (label `…:stale`), then in an activation of this
+    request the origin WAS contacted for a revalidation of a stored entry that was due, and
     * either it answered with a status ≥ 400 and the entry's age was inside its stale-if-error
       allowance (the code's `stale-if-error > age`, hence inside the window of the spec),
-    * or it answered 304 to a request that cannot record it (disk writes disabled: `Authorization`), and
-      the entry then found — the key being held by the request itself — was inside its
-      stale-while-revalidate allowance. -/
+    * or it CONFIRMED the entry (cacheable 304 to the cache's validator) and the confirmation was
+      recorded on the disk: the answer is the entry the origin has confirmed in this very request — which
+      is what "revalidated with the origin first" asks for.  The stale MARK shows when the re-published
+      entry still reads back as due: its lifetime is 0, the codec lost the longer of two values (finding
+      C07-a), or `now = 0` (the stamp `Revalidated = 0` means "never");
+    * or it confirmed the entry (304) for a request that cannot record it (disk writes disabled:
+      `Authorization`), and the entry then found — the key being held by the request itself, hence asked
+      for as it is — was still due: again an answer the origin has just confirmed. -/
 theorem stale_served_only_within_allowances (cfg : Config) (origin : Bytes → Option Origin) (now : Int)
     (req : Request) (fuel : Nat) (d : Disk) (ai : Header)
     (h : EndsStale (cachingFunc cfg origin now req fuel d req.header ai false []).label) :
     HadFailedRevalidation cfg origin now req ⟨d, req.header, ai, false, []⟩
       (cachingFunc cfg origin now req fuel d req.header ai false []).contacts
+    ∨ HadConfirmedRevalidation cfg origin now req ⟨d, req.header, ai, false, []⟩
+        (cachingFunc cfg origin now req fuel d req.header ai false []).contacts
     ∨ HadUnrecordedRevalidation cfg origin now req ⟨d, req.header, ai, false, []⟩
         (cachingFunc cfg origin now req fuel d req.header ai false []).contacts := by
   rcases stale_answer_inv cfg origin now req fuel d req.header ai false [] h with hf | hf
@@ -832,12 +872,12 @@ theorem stale_served_contacts_ne_nil (cfg : Config) (origin : Bytes → Option O
     (cachingFunc cfg origin now req fuel d req.header ai false []).contacts ≠ [] := by
   intro hn
   rcases stale_served_only_within_allowances cfg origin now req fuel d ai h with
-    ⟨_, _, _, _, _, _, _, hp⟩ | ⟨_, _, _, _, _, _, _, _, _, _, _, hp⟩
+    ⟨_, _, _, _, _, _, _, hp⟩ | ⟨_, _, _, _, _, _, _, _, hp⟩ | ⟨_, _, _, _, _, _, _, _, _, _, _, hp⟩
   all_goals
     rw [hn, List.prefix_nil] at hp
     simp at hp
 
-/-! #### the stale-if-error clause alone: false as stated, true for requests without `Authorization` -/
+/-! #### the stale-if-error clause alone: false as stated -/
 
 /-- **stale_served_only_after_failed_revalidation as stated**: a `…:stale` answer only after a contact
     answered with a status ≥ 400 inside the entry's stale-if-error allowance -/
@@ -847,6 +887,25 @@ def StaleOnlyAfterFailedRevalidationStatement : Prop :=
     HadFailedRevalidation cfg origin now req ⟨d, req.header, ai, false, []⟩
       (cachingFunc cfg origin now req fuel d req.header ai false []).contacts
 
+/-- an origin that answers 200 with `ETag: "v"` and nothing else, and a bare 304 to `If-None-Match: "v"` -/
+def etagOrigin : Bytes → Option Origin :=
+  fun _ => some { status := 200, headers := [(b!"ETag", b!"\"v\"")], body := b!"hi", cond := true }
+
+/-- an entry with lifetime 0 (`max-age=0`) and ETag `"v"`, filled at 1700000000 -/
+def exDiskZero : Disk :=
+  diskOf { exMeta with respHeader := [(b!"Cache-Control", [b!"max-age=0"]), (b!"Etag", [b!"\"v\""])] } b!"hi"
+
+/-- **witness** (confirmed and recorded, still due): an entry whose lifetime is 0; the origin CONFIRMS it
+    (bare 304), the confirmation is recorded, the re-entry (`skipRevalidate = true`) serves the entry, which
+    reads back as due at age 0: the stale mark after a successful revalidation, one contact, no error -/
+theorem fails_witness_confirmed :
+    (cachingFunc {} etagOrigin 1700000075 exGet 2 exDiskZero exGet.header [] false []).label = "w:304>f:hit:stale"
+    ∧ EndsStale (cachingFunc {} etagOrigin 1700000075 exGet 2 exDiskZero exGet.header [] false []).label
+    ∧ (cachingFunc {} etagOrigin 1700000075 exGet 2 exDiskZero exGet.header [] false []).contacts
+      = [⟨b!"\"v\"", [], []⟩]
+    ∧ exGet.header.get b!"authorization" = [] := by
+  decide +kernel
+
 /-- the entry of `exMeta` with an ETag, stored under the key of a request with `Authorization: k` -/
 def exDiskAuth : Disk :=
   Disk.empty.upd b!"h1.test/aAuthorizationk"
@@ -854,10 +913,11 @@ def exDiskAuth : Disk :=
             xattr := some (Codec.encode { exMeta with respHeader :=
               [(b!"Cache-Control", [b!"max-age=60, stale-while-revalidate=90"]), (b!"Etag", [b!"\"v\""])] }) })
 
-/-- **witness** (the self-locked stale-while-revalidate): a request with `Authorization` 75 s after the
-    fill of `max-age=60, stale-while-revalidate=90`: the origin CONFIRMS the entry (304), nothing can be
-    recorded (disk writes disabled), the re-entry finds the key held by the request itself and is handed
-    the stale copy; 175 s after the fill (outside the allowance) the request waits for itself (`hang`) -/
+/-- **witness** (confirmed, unrecorded): a request with `Authorization` 75 s after the fill of
+    `max-age=60, stale-while-revalidate=90`: the origin CONFIRMS the entry (304), nothing can be recorded
+    (disk writes disabled), the self-locked re-entry is asked for the entry as it is and hands out the copy
+    marked stale — inside the stale-while-revalidate window (75 s) and outside it (175 s) alike; the request
+    no longer waits for itself (`hang = false`) -/
 theorem fails_witness_selflocked :
     (cachingFunc {} condOrigin 1700000075 exGetAuth 2 exDiskAuth exGetAuth.header [] false []).label
       = "w:304>f:hit:stale"
@@ -865,28 +925,31 @@ theorem fails_witness_selflocked :
     ∧ (cachingFunc {} condOrigin 1700000075 exGetAuth 2 exDiskAuth exGetAuth.header [] false []).contacts
       = [⟨b!"\"v\"", [], []⟩]
     ∧ (cachingFunc {} condOrigin 1700000175 exGetAuth 2 exDiskAuth exGetAuth.header [] false []).label
-      = "w:304>g:selfwait"
-    ∧ (cachingFunc {} condOrigin 1700000175 exGetAuth 2 exDiskAuth exGetAuth.header [] false []).out.hang = true := by
+      = "w:304>f:hit:stale"
+    ∧ (cachingFunc {} condOrigin 1700000175 exGetAuth 2 exDiskAuth exGetAuth.header [] false []).contacts
+      = [⟨b!"\"v\"", [], []⟩]
+    ∧ (cachingFunc {} condOrigin 1700000175 exGetAuth 2 exDiskAuth exGetAuth.header [] false []).out.hang = false := by
   decide +kernel
 
-/-- `condOrigin` never answers with an error status -/
-theorem condOrigin_status {cfg : Config} {req : Request} {cs : List Contact} {h : Header} {resp : Resp}
-    (ha : ask cfg condOrigin req cs h = some resp) : resp.status = 304 ∨ resp.status = 200 := by
+/-- `etagOrigin` never answers with an error status -/
+theorem etagOrigin_status {cfg : Config} {req : Request} {cs : List Contact} {h : Header} {resp : Resp}
+    (ha : ask cfg etagOrigin req cs h = some resp) : resp.status = 304 ∨ resp.status = 200 := by
   unfold ask at ha
   split at ha
   · cases ha
-  · simp only [condOrigin, Option.map_some, Option.some.injEq] at ha
+  · simp only [etagOrigin, Option.map_some, Option.some.injEq] at ha
     subst ha
     unfold originAnswer
     repeat' first | split | (dsimp only; split)
     all_goals first | (left; rfl) | (right; rfl)
 
+/-- the statement fails already for a request WITHOUT `Authorization` (witness `fails_witness_confirmed`) -/
 theorem StaleOnlyAfterFailedRevalidationStatement_false : ¬ StaleOnlyAfterFailedRevalidationStatement := by
   intro h
   obtain ⟨_, _, _, _, resp, _, hfr, _⟩ :=
-    h {} condOrigin 1700000075 exGetAuth 2 exDiskAuth [] fails_witness_selflocked.2.1
+    h {} etagOrigin 1700000075 exGet 2 exDiskZero [] fails_witness_confirmed.2.1
   have h400 := hfr.status
-  rcases condOrigin_status hfr.asked with hs | hs <;> omega
+  rcases etagOrigin_status hfr.asked with hs | hs <;> omega
 
 /-- a request without `Authorization` has none in any of its activations: no self-locked re-entry -/
 theorem activation_authorization {cfg : Config} {origin : Bytes → Option Origin} {now : Int} {req : Request}
@@ -896,19 +959,23 @@ theorem activation_authorization {cfg : Config} {origin : Bytes → Option Origi
   | first => rfl
   | next _ hs ih => exact (stepOnce_reenter_authorization hs).trans ih
 
-/-- **stale_served_only_after_failed_revalidation** (with the hypothesis the witness above makes
-    necessary: the request carries no `Authorization`, so its disk writes are enabled): when the answer
-    is made from the copy marked stale, then in one of the activations of this request the origin was
-    contacted for a revalidation of a stored entry that was due, it answered with a status ≥ 400, and the
-    entry's age was inside its stale-if-error allowance -/
+/-- **stale_served_only_after_failed_revalidation** (strongest true version for a request without
+    `Authorization`, i.e. with disk writes enabled): when the answer is made from the copy marked stale,
+    then in an activation of this request the origin was contacted for a revalidation of a stored entry
+    that was due, and either it answered with a status ≥ 400 inside the entry's stale-if-error allowance,
+    or it confirmed the entry and the confirmation was recorded -/
 theorem stale_served_only_after_failed_revalidation (cfg : Config) (origin : Bytes → Option Origin) (now : Int)
     (req : Request) (fuel : Nat) (d : Disk) (ai : Header)
     (hauth : req.header.get b!"authorization" = [])
     (h : EndsStale (cachingFunc cfg origin now req fuel d req.header ai false []).label) :
     HadFailedRevalidation cfg origin now req ⟨d, req.header, ai, false, []⟩
+      (cachingFunc cfg origin now req fuel d req.header ai false []).contacts
+    ∨ HadConfirmedRevalidation cfg origin now req ⟨d, req.header, ai, false, []⟩
       (cachingFunc cfg origin now req fuel d req.header ai false []).contacts := by
-  rcases stale_served_only_within_allowances cfg origin now req fuel d ai h with hf | ⟨a, _, _, _, _, _, _, _, hact, hcu, _⟩
-  · exact hf
+  rcases stale_served_only_within_allowances cfg origin now req fuel d ai h with
+    hf | hf | ⟨a, _, _, _, _, _, _, _, hact, hcu, _⟩
+  · exact Or.inl hf
+  · exact Or.inr hf
   · exfalso
     have := hcu.authorization
     rw [activation_authorization hact] at this
@@ -1066,17 +1133,21 @@ theorem history_stale_only_within_allowances (cfg : Config) (s : State) (ops : L
     ∀ e ∈ runPairs cfg s ops, EndsStale e.ans.label →
       HadFailedRevalidation cfg e.state.origin e.state.now e.req ⟨e.state.disk, e.req.header, [], false, []⟩
         e.ans.contacts
+      ∨ HadConfirmedRevalidation cfg e.state.origin e.state.now e.req ⟨e.state.disk, e.req.header, [], false, []⟩
+        e.ans.contacts
       ∨ HadUnrecordedRevalidation cfg e.state.origin e.state.now e.req ⟨e.state.disk, e.req.header, [], false, []⟩
         e.ans.contacts := by
   intro e he hst
   rw [runPairs_answer cfg ops s e he] at hst ⊢
   exact stale_served_only_within_allowances cfg e.state.origin e.state.now e.req defaultFuel e.state.disk [] hst
 
-/-- **history_stale_only_after_failed_revalidation**: for requests without `Authorization` the
-    stale-if-error clause alone -/
+/-- **history_stale_only_after_failed_revalidation**: for requests without `Authorization`: a failed
+    revalidation inside stale-if-error, or a confirmed and recorded one -/
 theorem history_stale_only_after_failed_revalidation (cfg : Config) (s : State) (ops : List Op) :
     ∀ e ∈ runPairs cfg s ops, e.req.header.get b!"authorization" = [] → EndsStale e.ans.label →
       HadFailedRevalidation cfg e.state.origin e.state.now e.req ⟨e.state.disk, e.req.header, [], false, []⟩
+        e.ans.contacts
+      ∨ HadConfirmedRevalidation cfg e.state.origin e.state.now e.req ⟨e.state.disk, e.req.header, [], false, []⟩
         e.ans.contacts := by
   intro e he hauth hst
   rw [runPairs_answer cfg ops s e he] at hst ⊢
